@@ -20,7 +20,46 @@ func assumptionsFor(prop string) []string {
 	}
 }
 
-func (V *Verifier) runLemmas(prop, scratch string) []*Oblig { return nil }
+// runLemmas discharges the spec-level lemmas labelled with the property (closed formulas, no path condition).
+func (V *Verifier) runLemmas(prop, scratch string) []*Oblig {
+	var out []*Oblig
+	for _, l := range V.cs.Lemmas {
+		has := false
+		for _, p := range l.Labels {
+			if p == prop {
+				has = true
+			}
+		}
+		if !has {
+			continue
+		}
+		x := &X{V: V, key: "lemma", inlined: map[string]bool{}, externs: map[string]bool{}, assumed: map[string]bool{}, callCnt: map[string]int{}, nameCnt: map[string]int{},
+			opqNils: map[string]string{}, walkIdx: nil, sorts: map[string]string{}, sums: map[string]*SumFn{}}
+		s := &State{objs: map[int]Val{}, arrs: map[int]Val{}, maps: map[int]MapS{}, ghost: map[string]Val{}, iters: nil, lets: map[string]Val{}}
+		ev := &Ev{x: x, cur: s, now: s, old: s, scope: []map[string]Val{{}}, pkg: V.typesPkg(), where: l.File}
+		var goal string
+		func() {
+			defer func() {
+				if r := recover(); r != nil {
+					goal = ""
+					if u, ok := r.(unsupported); ok {
+						out = append(out, &Oblig{Name: "lemma#" + l.Name, Fn: "lemma", Kind: "lemma", Labels: l.Labels, Status: "error", Detail: u.msg, Clause: l.Text})
+						return
+					}
+					panic(r)
+				}
+			}()
+			goal = tm(ev.eval(l.Expr))
+		}()
+		if goal == "" {
+			continue
+		}
+		o := &Oblig{Name: "lemma#" + l.Name, Fn: "lemma", Kind: "lemma", Labels: l.Labels, Goal: goal, Clause: l.Text, Decls: x.decls}
+		V.discharge(o, x.sums, scratch)
+		out = append(out, o)
+	}
+	return out
+}
 
 func (V *Verifier) tryReplay(prop string, o *Oblig, dir string) bool { return false }
 
